@@ -147,13 +147,35 @@ def build_bank(cfg):
 
     import copy
 
-    return alias_factory_subclass_from_arg(LinearFilterBank, copy.deepcopy(cfg))
+    cfg = copy.deepcopy(cfg)
+    kinds = cfg.pop("_kinds", None) or {}
+    conv = {"int": int, "float": float, "np.int64": np.int64, "np.int32": np.int32, "np.float64": np.float64}
+    for k, t in kinds.items():
+        if cfg.get(k) is not None:
+            cfg[k] = conv[t](cfg[k])
+    return alias_factory_subclass_from_arg(LinearFilterBank, cfg)
 
 
 SIGNAL_KINDS = ["noise", "noise", "noise_small", "noise_big", "zeros", "const", "impulse_first", "impulse_last", "alternating", "sine", "ramp"]
 
 
-def signal(rng, N, kind=None, dtype=np.float64):
+def signal(rng, N, kind=None, dtype=np.float64, views=False):
+    """views=True: now and then the samples are handed over as a non-contiguous view (every other element of a
+    longer array, one channel of an interleaved recording, a reversed array read backwards)"""
+    if views and rng.random() < 0.15:
+        x = signal(rng, N, kind, dtype)
+        lay = int(rng.integers(3))
+        if lay == 0:
+            big = np.full(2 * N, 7, dtype=x.dtype)
+            v = big[::2]
+        elif lay == 1:
+            big = np.full((N, 3), 7, dtype=x.dtype)
+            v = big[:, 1]
+        else:
+            big = np.empty(N, dtype=x.dtype)
+            v = big[::-1]
+        v[...] = x
+        return v
     kind = kind or str(rng.choice(SIGNAL_KINDS))
     if kind == "noise":
         x = rng.standard_normal(N)
